@@ -418,7 +418,7 @@ func process2StringInterp(obj string, mergeFrom *Document, mergeFromDocs []*Docu
 		}
 
 		if v2, ok := v.(string); ok {
-			v, err = process2String(v2, mergeFrom, mergeFromDocs, ec, depth+1)
+			v, err = process2(v2, mergeFrom, mergeFromDocs, ec, depth)
 			if err != nil {
 				return "{ERROR}"
 			}
